@@ -245,6 +245,54 @@ FREEFORM = [('tinyssh_', 'TinySSH'), ('PuTTY_Release_', 'PuTTY'), ('lancom', 'LC
 DIG = ((48, 57),)
 
 
+class HeaderSanitised(Harness):
+    """real output() with a pre-banner header line that contains one ARBITRARY character (control characters, escape, DEL, non-ASCII): what the report shows
+    for the header consists of printable ASCII only (as for the banner), and the rest of the line is shown as sent."""
+    prop, ob = PROP, 'O2'
+    width = 64
+
+    def __init__(self, json):
+        self.json = json
+        self.name = 'headersanitised-%s' % ('json' if json else 'text')
+
+    def params(self):
+        return {'json': self.json}
+
+    def inputs(self):
+        c = zx.fresh_str('c', 1, ((0x01, 0x09), (0x0B, 0x0C), (0x0E, 0xFFFF)))       # anything but NUL, LF, CR (line structure)
+        return {'c': c}
+
+    def run(self, M, inp):
+        from props import outlib as OL
+        hdr = 'ab' + inp['c'] + 'cd'
+        r = OL.run_output(M, {c: ['x'] for c in OL.CATS}, header=[hdr], json=self.json)
+        if isinstance(r['ret'], Exc):
+            return {'exc': r['ret']}
+        if self.json:
+            return {'skip': True}
+        lines = [ln for ln in r['lines'] if OL._starts(ln, '(gen) header: ')]
+        return {'shown': lines[0][len('(gen) header: '):] if len(lines) == 1 else None, 'n': len(lines)}
+
+    def check(self, inp, obs):
+        if 'exc' in obs:
+            yield 'no-exception', False
+            return
+        if 'skip' in obs:
+            return
+        yield 'one-header-line', obs['n'] == 1
+        if obs['n'] != 1:
+            return
+        sh = obs['shown']
+        c = zx.shims.z_ord(inp['c'])
+        printable = s_and(c >= 32, c <= 126)
+        yield 'printable-character-shown-as-sent', s_implies(printable, sh == 'ab' + inp['c'] + 'cd')
+        ok = len(sh) == 5
+        if ok:
+            m = zx.shims.z_ord(sh[2])
+            ok = s_and(sh[:2] == 'ab', sh[3:] == 'cd', m >= 32, m <= 126)
+        yield 'header-shown-in-printable-ascii-only', s_implies(s_not(printable), ok)
+
+
 class AuditHeader(Harness):
     """the whole real audit(): a server sends header lines (symbolic printable text) before its identification string; the probes that follow reconnect several
     times (each probe connection is answered with banner + KEXINIT and closed).  The report still shows exactly the header text of the first connection and the
@@ -419,6 +467,7 @@ def tasks(tier):
             T.append(FreeProduct(fam, n))
     for n in ((0, 1, 2) if q else (0, 1, 2, 3)):
         T.append(AuditHeader(n))
+    T.append(HeaderSanitised(False))
     return T
 
 
@@ -432,6 +481,8 @@ def harness_by_name(name, params):
         return Header(params['hlens'], params['eol'], params['split'], params.get('dom', 'any'))
     if k == 'product':
         return Product(params['fam'], params['shape'], params['npatch'])
+    if k == 'headersanitised':
+        return HeaderSanitised(params['json'])
     if k == 'auditheader':
         return AuditHeader(params['nlines'])
     if k == 'freeproduct':
